@@ -6,6 +6,7 @@ import (
 	"encoding/json"
 	"fmt"
 	"reflect"
+	"strconv"
 	"strings"
 
 	"ariga.io/atlas/sql/migrate"
@@ -19,9 +20,9 @@ import (
 )
 
 // Sigma is the adversarial string set; each is embedded as "a" + s + "b".
-var Sigma = []string{";", "'", "\"", "`", "'q'", "\"q\"", "\\\"", "--", "/*", "*/", "#", "\\", "\n", "$$", "$t$", " BEGIN ", " END; ", ";\n", "\r\n", "\r", "\nDELIMITER //\n", "\n-- atlas:delimiter x\n"}
+var Sigma = []string{";", "'", "\"", "`", "'q'", "\"q\"", "\\\"", "--", "/*", "*/", "#", "\\", "\n", "$$", "$t$", " BEGIN ", " END; ", ";\n", "\r\n", "\r", "down", " Down ", "StatementBegin", " up ", "\nDELIMITER //\n", "\n-- atlas:delimiter x\n"}
 
-var Slots = []string{"table", "column", "index", "check_name", "fk_name", "table_comment", "column_comment", "index_comment", "default", "enum_value", "check_literal"}
+var Slots = []string{"table", "column", "index", "check_name", "fk_name", "table_comment", "column_comment", "index_comment", "default", "enum_value", "check_literal", "default_dq", "default_raw"}
 
 type Case struct {
 	Dialect   string            `json:"dialect"`
@@ -85,6 +86,15 @@ func build(d *dialectT, c Case, full bool) *schema.Schema {
 	col := &schema.Column{Name: val(c, "column", "col"), Type: &schema.ColumnType{Type: strT(), Null: true}}
 	col.SetDefault(&schema.Literal{V: sqlQuote(val(c, "default", "dflt"))})
 	t.AddColumns(col)
+	if d.name == "sqlite" {
+		// the two other spellings a SQLite default literal arrives in: double-quoted (what the inspector
+		// returns for DEFAULT "...") and bare text; the planner must turn both into one SQL string.
+		dq := &schema.Column{Name: "col_dq", Type: &schema.ColumnType{Type: strT(), Null: true}}
+		dq.SetDefault(&schema.Literal{V: strconv.Quote(val(c, "default_dq", "dq"))})
+		raw := &schema.Column{Name: "col_raw", Type: &schema.ColumnType{Type: strT(), Null: true}}
+		raw.SetDefault(&schema.Literal{V: val(c, "default_raw", "rawtext")})
+		t.AddColumns(dq, raw)
+	}
 	if d.enum {
 		var et *schema.EnumType
 		if d.name == "mysql" {
@@ -245,6 +255,10 @@ func cases(tier string) []Case {
 			choices = append(choices, choice{map[string]string{slot: embed(s)}})
 		}
 	}
+	// one very long line (longer than a line reader's default 64 KiB buffer) in a literal slot.
+	for _, slot := range []string{"default", "check_literal"} {
+		choices = append(choices, choice{map[string]string{slot: strings.Repeat("x", 70000)}})
+	}
 	if tier == "thorough" {
 		for i, s1 := range Slots {
 			for _, s2 := range Slots[i+1:] {
@@ -261,7 +275,7 @@ func cases(tier string) []Case {
 		for _, ch := range choices {
 			skip := false
 			for slot := range ch.vals {
-				if (!d.comment && strings.HasSuffix(slot, "_comment")) || (!d.enum && slot == "enum_value") {
+				if (!d.comment && strings.HasSuffix(slot, "_comment")) || (!d.enum && slot == "enum_value") || (d.name != "sqlite" && (slot == "default_dq" || slot == "default_raw")) {
 					skip = true
 				}
 			}
